@@ -281,12 +281,71 @@ pub fn run(ctx: &Ctx) {
     for c in ["l3/jump/taken", "l3/jump/not-taken", "l3/jump/self-target-repeated", "l3/jump/backward-loop-iterated", "l3/jump/backward-memory-counted-taken-3-times-or-more"] {
         ctx.require_class(c, 10);
     }
+    // what is emitted for a jump does not depend on what stands in front of it: every ordered pair of spellings, the
+    // second directly behind the first or behind a label that follows the first (it can then be reached from elsewhere),
+    // must be emitted exactly as it is when it stands alone -- whose meaning the table above has decided
+    {
+        let all: Vec<&str> = JCC_SPELLINGS.iter().chain(LOOP_SPELLINGS.iter()).copied().collect();
+        let alone = |b: &str| -> Result<String, String> {
+            let a = assemble(&format!("start: {} y\nnop\ny: hlt\n", b))?;
+            a.code.first().cloned().ok_or_else(|| "nothing emitted".to_string())
+        };
+        let mut firsts: Vec<Failure> = Vec::new();
+        let mut n = 0u64;
+        for b0 in &all {
+            for b in [b0.to_string(), b0.to_uppercase()] {
+                let want = match alone(&b) {
+                    Ok(w) => w,
+                    Err(_) => continue, // reported above as not runnable
+                };
+                for a in &all {
+                    for (k, src) in [
+                        format!("start: {} x\n{} y\nx: nop\ny: hlt\n", a, b),
+                        format!("start: {} x\nmid: {} y\nx: nop\ny: hlt\n", a, b),
+                        format!("start: cmp ax, bx\n{} x\n  {} y\nx: jmp mid\nmid: nop\ny: hlt\n", a, b),
+                    ]
+                    .iter()
+                    .enumerate()
+                    {
+                        n += 1;
+                        let got = match assemble(src) {
+                            Ok(asm) => asm.code.get(if k == 2 { 2 } else { 1 }).cloned().unwrap_or_default(),
+                            Err(e) => format!("rejected: {}", e.lines().next().unwrap_or("")),
+                        };
+                        if got != want && firsts.iter().all(|f| !f.key.ends_with(&format!("|{}", b.to_lowercase()))) {
+                            firsts.push(Failure {
+                                key: format!("jcc|emission-depends-on-context|{}", b.to_lowercase()),
+                                what: format!("'{} y' standing alone is emitted as '{}', behind '{} x'{} as '{}'", b, want, a, ["", " and a label", " (after a cmp)"][k], got),
+                                replay: json!({"kind":"jcc-context","source":src,"index": if k == 2 { 2 } else { 1 },"alone":want}),
+                            });
+                        }
+                    }
+                }
+            }
+        }
+        ctx.add_evals(n);
+        ctx.add_nontrivial(n);
+        ctx.class("jcc/emitted-behind-another-jump", n);
+        for f in firsts {
+            ctx.fail(f);
+        }
+    }
     // grammar cross-check: every jump/loop terminal in the working tree's grammar is in our table
     crate::grammar::crosscheck_jumps(ctx, &spellings, &lsp);
 }
 
 /// replay one point
 pub fn replay(v: &serde_json::Value) -> Result<String, String> {
+    if v.get("kind").and_then(|x| x.as_str()) == Some("jcc-context") {
+        let src = v.get("source").and_then(|x| x.as_str()).ok_or("no source")?;
+        let idx = v.get("index").and_then(|x| x.as_u64()).unwrap_or(1) as usize;
+        let alone = v.get("alone").and_then(|x| x.as_str()).unwrap_or("");
+        let got = match assemble(src) {
+            Ok(a) => a.code.get(idx).cloned().unwrap_or_default(),
+            Err(e) => format!("rejected: {}", e),
+        };
+        return if got == alone { Ok(format!("emitted '{}' as when standing alone", got)) } else { Err(format!("emitted '{}', standing alone '{}'", got, alone)) };
+    }
     let sp = v.get("spelling").and_then(|x| x.as_str()).ok_or("no spelling")?;
     let fw = v.get("flags").and_then(|x| x.as_u64()).unwrap_or(0) as u16;
     let cx = v.get("cx").and_then(|x| x.as_u64()).unwrap_or(5) as u16;
